@@ -12,13 +12,23 @@ import (
 // ARGSWAP — a call passes two of the caller's identifiers whose names are the callee's parameter
 // names, but at each other's positions (same type): RemoveEdges(removeTips, removeRoot, ...).
 func (c *Ctx) argSwap(rule string, pkgRels []string, clause string) int {
+	return c.argSwapFuncs(rule, c.AllFuncs(pkgRels...), nil, clause)
+}
+
+// argSwapFuncs: the same over a list of functions (declared ones or command closures); only calls
+// of callees accepted by `only` (nil = every repository function) are looked at. The second
+// identifier may carry a prefix (`compareTips` for parameter `tips`).
+func (c *Ctx) argSwapFuncs(rule string, funcs []*FuncInfo, only func(*types.Func) bool, clause string) int {
 	n := 0
-	for _, fi := range c.AllFuncs(pkgRels...) {
+	namedLike := func(arg, param string) bool {
+		return arg == param || (len(param) >= 3 && strings.Contains(strings.ToLower(arg), strings.ToLower(param)))
+	}
+	for _, fi := range funcs {
 		info := fi.Pkg.TypesInfo
 		ord := map[string]int{}
 		for _, call := range callsIn(fi.Decl.Body, true) {
 			fn := calleeOf(info, call)
-			if fn == nil || !inRepo(fn) {
+			if fn == nil || !inRepo(fn) || (only != nil && !only(fn)) {
 				continue
 			}
 			sig := fn.Type().(*types.Signature)
@@ -50,7 +60,7 @@ func (c *Ctx) argSwap(rule string, pkgRels []string, clause string) int {
 				}
 				// arg i is named like parameter j: is arg j named like parameter i ?
 				if j < len(call.Args) {
-					if id2, ok := unparen(call.Args[j]).(*ast.Ident); ok && id2.Name == sig.Params().At(i).Name() && types.Identical(sig.Params().At(i).Type(), sig.Params().At(j).Type()) && i < j {
+					if id2, ok := unparen(call.Args[j]).(*ast.Ident); ok && namedLike(id2.Name, sig.Params().At(i).Name()) && types.Identical(sig.Params().At(i).Type(), sig.Params().At(j).Type()) && i < j {
 						n++
 						c.Violation(rule, fmt.Sprintf("%s/%s(%s↔%s)", funcName(fi.Obj), fn.Name(), id.Name, id2.Name), call.Pos(), fmt.Sprintf("%s is called with `%s` in the position of parameter `%s` and `%s` in the position of parameter `%s` (same type): the two arguments are exchanged", fn.Name(), id.Name, sig.Params().At(i).Name(), id2.Name, sig.Params().At(j).Name())).Clause = clause
 					}
